@@ -234,6 +234,24 @@ def mkSum2 (a b : BOp α) : Except Err (BOp α) :=
   | some S => .ok (sum [matchBatch S a, matchBatch S b])
   | none => .error .shape
 
+/-- `a + Zero(zbs…)` since d734ac2: `LinearOperator.__add__` / `SumLinearOperator.__add__` answer a ZeroLinearOperator operand with
+`other + self`, i.e. `ZeroLinearOperator.__add__`: `a` itself when it already has the broadcast shape, `a.expand(*shape)`
+(→ `_expand_batch`) otherwise; incompatible batch shapes raise. -/
+def addZeroRight (a : BOp α) (zbs : Shape) : Except Err (BOp α) :=
+  match bshapes a.bshape zbs with
+  | some S => .ok (matchBatch S a)
+  | none => .error .shape
+
+/-- `a * Zero(zbs…)` since d734ac2: `other.mul(self)` = a ZeroLinearOperator of the broadcast shape. -/
+def mulZeroRight (a : BOp α) (zbs : Shape) : Except Err (BOp α) :=
+  match bshapes a.bshape zbs with
+  | some S => .ok (zero S a.rows a.cols)
+  | none => .error .shape
+
+/-- the code BEFORE d734ac2 (`return self` / `return other`), kept only for the `old_code_*` statements. -/
+def oldAddZeroRight (a : BOp α) (_zbs : Shape) : BOp α := a
+def oldMulZeroRight (_a : BOp α) (zbs : Shape) (n m : Nat) : BOp α := zero zbs n m
+
 /-! ### `_sum_batch`, `_prod_batch` (classes with a structural override) -/
 section reduce
 variable [Zero α] [One α] [Add α] [Mul α]
